@@ -142,20 +142,17 @@ def split_traces(events):
 
 def normalise(tr):
     """recorder lines -> lines for CollectorTrace.tla (format only; see the module header)"""
-    out, pend, cut = [], {}, False
+    out, cut = [], False
     for e in tr:
         ev = e["ev"]
         if cut and ev != "end":
             continue
         n = dict(ev=ev, st=e.get("st", "Starting"), id="", comps=[], gen=e.get("gen", 0), comp=e.get("comp", ""),
                  ok=not e.get("err", False), reg=bool(e.get("reg", False)),
-                 kind="sigterm" if e.get("kind") == "sigint" else e.get("kind", ""), st0="", bad=False)
+                 kind="sigterm" if e.get("kind") == "sigint" else e.get("kind", ""), iid=e.get("iid", 0), bad=False)
         if ev == "reset":
             n["id"], n["comps"], n["st"] = e["id"], e["script"]["comps"], "Starting"
-        elif ev == "ext" and "iid" in e:
-            pend[e["iid"]] = e["st"]
         elif ev == "ext_done":
-            n["st0"] = pend.pop(e["iid"], e["st"])
             n["bad"] = e.get("panics", 0) > 0 or bool(e.get("blocked"))
         elif ev == "notify_done":
             n["bad"] = bool(e.get("panic"))
